@@ -1,5 +1,129 @@
 import PestModel.Model.Debugger
-/-! Lemmas for C17 (debugger protocol). -/
+/-! Lemmas for C17 (debugger protocol): the global invariant `Inv` of the protocol model. -/
 namespace PestModel.Dbg
+
+/-! ### expected events -/
+
+theorem expectedEvents_nil (entries : List (Rule × Nat)) : expectedEvents entries [] = [] := by
+  simp [expectedEvents]
+
+theorem zip_snoc {α β} (l : List α) (m : List β) (b : β) (a : α) (hk : l[m.length]? = some a) :
+    l.zip (m ++ [b]) = l.zip m ++ [(a, b)] := by
+  induction m generalizing l with
+  | nil =>
+    cases l with
+    | nil => simp at hk
+    | cons e es => simp at hk; subst hk; simp
+  | cons x xs ih =>
+    cases l with
+    | nil => simp at hk
+    | cons e es =>
+      simp at hk
+      simp [ih es hk]
+
+theorem expectedEvents_snoc (entries : List (Rule × Nat)) (bpsAt : List (List Rule)) (bps : List Rule) (r : Rule) (p : Nat)
+    (hk : entries[bpsAt.length]? = some (r, p)) :
+    expectedEvents entries (bpsAt ++ [bps]) =
+      expectedEvents entries bpsAt ++ (if bps.contains r then [Event.breakpoint r p] else []) := by
+  unfold expectedEvents
+  rw [zip_snoc _ _ _ _ hk, List.filterMap_append]
+  congr 1
+  by_cases h : r ∈ bps <;> simp [h]
+
+/-! ### classification of program counters -/
+
+def allBp (l : List Event) : Prop := ∀ e ∈ l, isBreakpoint e = true
+
+theorem allBp_nil : allBp [] := by simp [allBp]
+
+theorem allBp_snoc_bp {l : List Event} (h : allBp l) (r : Rule) (p : Nat) : allBp (l ++ [Event.breakpoint r p]) := by
+  intro e he
+  simp at he
+  rcases he with he | he
+  · exact h e he
+  · subst he; rfl
+
+theorem allBp_filter {l : List Event} (h : allBp l) : l.filter isBreakpoint = l := by
+  simpa [allBp] using h
+
+def finalEv (s : State) : Event := if s.finalOk then Event.eof else Event.error
+
+theorem finalEv_not_bp (s : State) : isBreakpoint (finalEv s) = false := by
+  unfold finalEv; split <;> rfl
+
+def FinalShape (s : State) (sent : List Event) : Prop :=
+  s.bpsAt.length = s.entries.length ∧ sent = expectedEvents s.entries s.bpsAt ++ [finalEv s]
+
+/-- what is known about the ghost fields at each program counter of the thread. -/
+def PcData (s : State) (sent : List Event) : PPc → Prop
+  | .checkDone k => s.bpsAt.length = k ∧ k ≤ s.entries.length ∧ allBp sent
+  | .lockBps k => s.bpsAt.length = k ∧ k < s.entries.length ∧ allBp sent
+  | .send k => s.bpsAt.length = k + 1 ∧ k < s.entries.length ∧ allBp sent
+  | .park k => s.bpsAt.length = k + 1 ∧ k < s.entries.length ∧ allBp sent
+  | .abortCheck _ _ => s.isDone = true ∧ allBp sent
+  | .checkCancel ok => allBp sent ∧ (s.isDone = true ∨ (s.bpsAt.length = s.entries.length ∧ ok = s.finalOk))
+  | .finishSend ok => allBp sent ∧ s.bpsAt.length = s.entries.length ∧ ok = s.finalOk
+  | .setDone => FinalShape s sent
+  | .exited _ => allBp sent ∨ FinalShape s sent
+
+/-- the breakpoint event the thread has decided to send and not yet sent (same as `Thm.C17.pendingEv`). -/
+def pendEv (s : State) (t : Thread) : List Event :=
+  match t.pc with
+  | .send k => (match s.entries[k]? with | some (r, p) => [.breakpoint r p] | none => [])
+  | _ => []
+
+def isPark : PPc → Bool
+  | .park _ => true
+  | _ => false
+
+def isExited : PPc → Bool
+  | .exited _ => true
+  | _ => false
+
+/-- program counters at which, before the stop flag is set by a clean restart, nothing is in the
+channel and no wake-up is outstanding. -/
+def quietPc : PPc → Bool
+  | .park _ | .setDone | .exited _ => false
+  | _ => true
+
+def needsEmpty : PPc → Bool
+  | .lockBps _ | .send _ | .finishSend _ => true
+  | _ => false
+
+def needsTok : PPc → Bool
+  | .lockBps _ | .send _ | .park _ => true
+  | _ => false
+
+def TokOk (t : Thread) : Prop :=
+  (t.sent.filter isBreakpoint).length + (if t.token then 1 else 0) ≤ t.unparks + (if isPark t.pc then 1 else 0)
+
+def RJ (t : Thread) : Prop :=
+  (quietPc t.pc = true → t.chan = [] ∧ t.token = false) ∧ (isPark t.pc = true → t.chan = [] ∨ t.token = false)
+
+def RU (t : Thread) : Prop := needsEmpty t.pc = true → t.chan = []
+
+def RG (t : Thread) : Prop := (needsEmpty t.pc = true → t.chan = []) ∧ (needsTok t.pc = true → t.token = true)
+
+/-- the global invariant. -/
+structure Inv (s : State) : Prop where
+  cap_pos : 0 < s.cap
+  noCur : s.cpc = .runStoreFalse ∨ s.cpc = .runSpawn → s.cur = none
+  spawnDone : s.cpc = .runSpawn → s.isDone = false
+  hasCur : s.cpc = .runLoadDone ∨ s.cpc = .runStoreDone ∨ s.cpc = .runUnpark ∨ s.cpc = .runJoin → s.cur ≠ none
+  doneLate : s.cpc = .runUnpark ∨ s.cpc = .runJoin → s.isDone = true
+  doneExited : ∀ t, s.cur = some t → s.isDone = true →
+    (s.cpc = .idle ∨ s.cpc = .contLoadDone ∨ s.cpc = .contUnpark ∨ s.cpc = .runLoadDone ∨ s.cpc = .runStoreDone) →
+    isExited t.pc = true
+  fifo : ∀ t, s.cur = some t → s.received ++ t.chan = t.sent
+  pcData : ∀ t, s.cur = some t → PcData s t.sent t.pc
+  expd : ∀ t, s.cur = some t → t.sent.filter isBreakpoint ++ pendEv s t = expectedEvents s.entries s.bpsAt
+  tok : ∀ t, s.cur = some t → TokOk t
+  rJ : ∀ t, s.cur = some t → s.cleanRestart = true → (s.cpc = .runLoadDone ∨ s.cpc = .runStoreDone) → RJ t
+  rU : ∀ t, s.cur = some t → s.cleanRestart = true → s.cpc = .runUnpark → RU t
+  rG : ∀ t, s.cur = some t → s.cleanRestart = true → s.cpc = .runJoin → RG t
+
+theorem Inv_init (entries : List (Rule × Nat)) (ok : Bool) (ab : List (Nat × Outcome)) (cap : Nat) (bps : List Rule)
+    (todo : List Cmd) (hcap : 0 < cap) : Inv (State.init entries ok ab cap bps todo) := by
+  constructor <;> simp [State.init, hcap]
 
 end PestModel.Dbg
